@@ -673,6 +673,11 @@ def run(ctx):
     from . import c02
     sfacts = c02.stream_view(facts)      # the ring's entry points with private helpers / lock-and-run closures substituted in
     rule_r6(sfacts, ctx, cg if sfacts is facts else CallGraph(sfacts))
+    from . import c09, c19 as _c19
+    # "shutdown propagates": a block that answers a wait on a stream that already holds the amount is never told that the
+    # OTHER input has ended (seed s9-c04) - same rule as C09.R3 / C05.R8
+    c09.rule_r3(facts, _c19._Retag(ctx, "C09.R3", "C04.R11"))
+    ctx.floor("C04.R11", 40, "WaitForStream return sites with a plain short-window controlling test (same rule as C09.R3)")
     rule_r10(facts, ctx, cg=cg)
     ctx.floor("C04.R10", 4, "calls that sleep on a Condvar with a timeout (Buffer::wait_for_read/write and their callers, NCReadStream::wait)")
     rule_r9(facts, ctx)
